@@ -13,6 +13,7 @@ for wt in /tmp/wt/C??; do
     if [ -d $wt/deliver_round4 ]; then if [ $w = a ]; then d=i; else d=j; fi; fi
     if [ -d $wt/deliver_round5 ]; then if [ $w = a ]; then d=k; else d=l; fi; fi
     if [ -d $wt/deliver_round6 ]; then if [ $w = a ]; then d=m; else d=n; fi; fi
+    if [ -d $wt/deliver_round7 ]; then if [ $w = a ]; then d=o; else d=p; fi; fi
     [ -d seeded/${p}_$d ] && continue
     tools/seedcheck.py import $wt $p $w $d | tail -1 | cut -c1-200
   done
